@@ -75,7 +75,9 @@ def frames_of(pcap):
             return None
         src, dst = struct.unpack(">II", d[12:20])
         sp, dp = struct.unpack(">HH", d[20:24])
-        out.append((src, sp, dst, dp, d[28:], raw))
+        # the message is what the UDP length field delimits (an independent decoder of the capture sees nothing else)
+        ulen = struct.unpack(">H", d[24:26])[0]
+        out.append((src, sp, dst, dp, d[28:20 + ulen] if ulen >= 8 else b"", raw))
     return out if ok else None
 
 
@@ -93,6 +95,10 @@ def host_cases(ctx):
         ls = labels(r) if i >= 8 else [[b"a"], [b"x" * 63], [b"x" * 63] * 4, [b"\x00"], [b"\xff" * 63, b"\x00" * 63], [b"www", b"example", b"com"],
                                        [bytes([b]) for b in range(1, 40) if b != 46], [b"a"] * 130][i]
         addrs = [rand_ip(r) for _ in range(i % 5)]
+        if 8 <= i < 50:
+            # one name, 0..41 addresses: response sizes 33 + 31 n sweep the residues mod 256 (length-field carries) and
+            # pass 512 bytes
+            ls, addrs = [b"www", b"example", b"com"], [rand_ip(r) for _ in range(i - 8)]
         kw = {}
         k = r.random()
         ttl = None
